@@ -1,23 +1,85 @@
-(* Props/C04.v -- property theorems only.  Each is closed by `exact <lemma>` and followed by Print Assumptions. *)
+(* Props/C04.v -- property theorems only.  Each is closed by `exact <lemma>` and followed by Print Assumptions.
+   Objects: coq/Model/Penalties.v (executable model of pygam/penalties.py and *.build_penalties), real instance. *)
 From Coq Require Import List Reals.
-From PG Require Import Base.Ops Base.Vec Model.Penalties Proofs.VecR Proofs.C04.
+From PG Require Import Base.Ops Base.Vec Model.Penalties Proofs.VecR Proofs.C04 Proofs.C04b Proofs.C04Transfer.
 Import ListNotations.
 Open Scope R_scope.
 
+(* derivative penalty: beta' P beta = sum of squared d-th differences, all n, d >= 1, beta *)
 Theorem C04_derivative_quadform : forall n d bs, (1 <= d)%nat -> length bs = n ->
   quadR (pen_derivative Rrops n d) bs = sumsqR (diffnR d bs).
 Proof. exact derivative_quadform. Qed.
 Print Assumptions C04_derivative_quadform.
 
-Theorem C04_cyclic_quadform : forall n d bs, (1 <= d)%nat -> length bs = n ->
-  quadR (pen_periodic Rrops n d) bs = sumsqR (cdiffnR d bs).
-Proof. exact periodic_quadform. Qed.
-Print Assumptions C04_cyclic_quadform.
-
+(* ridge and null penalties *)
 Theorem C04_l2_quadform : forall n bs, length bs = n -> quadR (pen_l2 Rrops n) bs = sumsqR bs.
 Proof. exact l2_quadform. Qed.
 Print Assumptions C04_l2_quadform.
-
 Theorem C04_none_zero : forall n bs, quadR (pen_none Rrops n) bs = 0.
 Proof. exact none_quadform. Qed.
 Print Assumptions C04_none_zero.
+
+(* what the property promises for the cyclic penalty holds of the SPECIFICATION matrix (Gram of cyclic differences) ... *)
+Theorem C04_cyclic_spec_quadform : forall n d bs, (1 <= d)%nat -> length bs = n ->
+  quadR (pen_cyclic_spec Rrops n d) bs = sumsqR (cdiffnR d bs).
+Proof. exact periodic_quadform. Qed.
+Print Assumptions C04_cyclic_spec_quadform.
+(* ... but is FALSE of the matrix the code builds (faithful model pen_periodic): known finding S5 *)
+Theorem C04_cyclic_quadform_refuted :
+  exists n d bs M, (1 <= d)%nat /\ length bs = n /\ pen_periodic Rrops n d = Some M /\
+                   quadR M bs <> sumsqR (cdiffnR d bs).
+Proof. exact periodic_code_refuted. Qed.
+Print Assumptions C04_cyclic_quadform_refuted.
+(* what remains true of the code's cyclic penalty: symmetric positive semi-definite (it is a Gram matrix) *)
+Theorem C04_cyclic_sym_psd_partial : forall n d M, pen_periodic Rrops n d = Some M -> bisym M n /\ psd M n.
+Proof. exact periodic_code_sym_psd. Qed.
+Print Assumptions C04_cyclic_sym_psd_partial.
+
+(* symmetry and positive semi-definiteness of the derivative penalty follow from the quadratic form / Gram structure *)
+Theorem C04_derivative_psd : forall n d bs, (1 <= d)%nat -> length bs = n -> 0 <= quadR (pen_derivative Rrops n d) bs.
+Proof. intros n d bs Hd H. rewrite (derivative_quadform n d bs Hd H). apply sumsq_nonneg. Qed.
+Print Assumptions C04_derivative_psd.
+
+(* null spaces: constants (d >= 1) and straight lines (d >= 2) are unpenalised; cyclic differences kill constants *)
+Theorem C04_null_constants : forall d c n, (1 <= d)%nat -> diffnR d (repeat c n) = zerosR (n - d).
+Proof. exact derivative_null_constants. Qed.
+Print Assumptions C04_null_constants.
+Theorem C04_null_lines : forall d a b n, (2 <= d)%nat -> diffnR d (arith a b n) = zerosR (n - d).
+Proof. exact derivative_null_lines. Qed.
+Print Assumptions C04_null_lines.
+Theorem C04_cyclic_null_constants : forall d c n, (1 <= d)%nat -> cdiffnR d (repeat c n) = zerosR n.
+Proof. exact periodic_null_constants. Qed.
+Print Assumptions C04_cyclic_null_constants.
+
+(* a term's penalty is sum_j lam_j P_j (quadratic forms add) and is n x n *)
+Theorem C04_term_sum : forall m v, margin_ok m ->
+  quadR (margin_penalty Rrops m) v = sum_lam_quad (m_kind m) (m_n m) (m_pens m) v.
+Proof. exact margin_penalty_sum. Qed.
+Print Assumptions C04_term_sum.
+
+(* Kronecker lift I_p (x) B acts on the p consecutive length-q chunks of the coefficient vector (C order, last axis).
+   PARTIAL: the general k-way statement (lift of marginal i = sum over all axis-i fibres) is proved only for this
+   last-axis lift; the other axes and the left-to-right fold of scipy.sparse.kron are covered by correspondence. *)
+Theorem C04_tensor_kron_last_axis_partial : forall B q p v, square B q -> length v = (p * q)%nat ->
+  quadR (kron Rrops (identR p) B) v = quad_chunks B q p v.
+Proof. exact kron_ident_l_quad. Qed.
+Print Assumptions C04_tensor_kron_last_axis_partial.
+
+(* the model penalty is block diagonal in term order: its quadratic form is the sum of the blocks' forms on the
+   corresponding coefficient slices (the intercept block is [[0]]) *)
+Theorem C04_block_diag : forall Ps v, Forall (fun P => square P (length P)) Ps -> length v = total Ps ->
+  quadR (block_diag Rrops Ps) v = quad_blocks Ps v.
+Proof. exact block_diag_quad. Qed.
+Print Assumptions C04_block_diag.
+
+(* what the integer instance computes (used by the correspondence check) is what the real instance denotes *)
+Theorem C04_transfer_derivative : forall n d, pen_derivative Rrops n d = map (map IZR) (pen_derivative Zrops n d).
+Proof. exact pen_derivative_Z2R. Qed.
+Print Assumptions C04_transfer_derivative.
+Theorem C04_transfer_periodic : forall n d, pen_periodic Rrops n d = option_map (map (map IZR)) (pen_periodic Zrops n d).
+Proof. exact pen_periodic_Z2R. Qed.
+Print Assumptions C04_transfer_periodic.
+
+(* non-vacuity: the hypotheses are met by concrete non-trivial values *)
+Example C04_example_margin_ok : margin_ok (mk_margin (KSpline true false) 5 [(PAuto, 3); (PDeriv 2, 1/2)]).
+Proof. repeat constructor; cbn; auto with arith. Qed.
